@@ -134,7 +134,9 @@ def stv_boundary_profile(rng):
     names = pick_names(rng, n)
     m = rng.randint(1, n - 1)
     kind = rng.choice(["at_threshold", "tie_top", "tie_bottom", "tie_bottom_init", "exhaust",
-                       "many_reach", "bullets", "zero_votes", "default_elect"])
+                       "many_reach", "bullets", "zero_votes", "default_elect", "tie_bottom_partial"])
+    if kind == "tie_bottom_partial" and n < 5:
+        kind = "tie_bottom_init"
     ballots = []
 
     def add(r, w):
@@ -174,6 +176,21 @@ def stv_boundary_profile(rng):
             # make the tie appear only after a transfer: a top candidate's ballots flow to one of low
             add([names[0], low[0]], 1)
             add([names[0], low[1]], 1)
+    elif kind == "tie_bottom_partial":
+        # a tie for last place among THREE candidates that appears in a later round and that the
+        # initial first-place tallies only partly resolve ({X} above {Y, Z}): the fallback must still
+        # break Y/Z at random and record a strict order
+        m = 1
+        w, x, y, z, d = names[0], names[1], names[2], names[3], names[4]
+        a = rng.choice([3, 4, 6])
+        add([w] + rng.sample([x, y, z], rng.randint(0, 2)), a + rng.randint(1, 3))
+        add([x], a)
+        add([y], a - 1)
+        add([z], a - 1)
+        add([d, y], 1)
+        add([d, z], 1)
+        for c in names[5:]:
+            add([c, w], 1) if rng.random() < 0.5 else None
     elif kind == "exhaust":
         for c in names:
             if rng.random() < 0.8:
